@@ -45,7 +45,7 @@ func checkC02(e *Env) {
 	stats := e.RunStream(StreamOpts{Drv: drv}, func(emit func(*Item)) {
 		e.entropyCorpus("C02", func(c EntCase) {
 			// (a) the implementation's own output, checked in the same process
-			emit(&Item{Op: plan.Op{Fn: "encchk", L: int64(c.Lang), E: hx(c.Ent)}, Exp: c02exp{kind: "own", c: c}})
+			emit(&Item{Op: plan.Op{Fn: "encchk", L: int64(c.Lang), E: hx(c.Ent), Arena: c.Ent[0]&1 == 1}, Exp: c02exp{kind: "own", c: c}})
 			// (b) the reference sentence for the same entropy ("equivalently" clause)
 			s := e.Model.Enc(c.Ent, c.Lang)
 			emit(&Item{Op: plan.Op{Fn: "chkval", L: int64(c.Lang), S: hxs(s)}, Exp: c02exp{kind: "ref", c: c, sent: s}})
